@@ -129,6 +129,7 @@ def execute(spec, want_obs=False):
     obs = Observer(p.fun, p.grad if jac == "callable" else (None if jac == "none" else jac), p.lb, p.ub)
     if jac == "none":
         obs.jac_mode = "none"
+    obs.mutate_args = bool(spec.get("mutate_args"))
     kw = dict(spec.get("kwargs", {}))
     ft = spec.get("ftarget")
     ftarget = None
@@ -265,6 +266,8 @@ def rand_spec(rng, families, *, nmax=6, small_budgets=True, jacs=("callable",), 
     else:
         kw["maxiter"] = 300
         kw["maxfun"] = 5000
+    if rng.random() < 0.15:
+        kw["max_steplength"] = float(rng.choice([0.05, 0.3, 0.9, 3.0]))     # the user's cap on the step length
     spec = {"family": fam, "n": n, "pseed": int(rng.integers(1 << 30)), "kwargs": kw,
             "jac": str(rng.choice(list(jacs)))}
     # (finite-difference modes get degenerate sides lb == ub like every other mode since fix 845aa87: before it the
